@@ -33,7 +33,7 @@ def main():
         return 2
     results = {}
     try:
-        env = dict(os.environ, CARGO_NET_OFFLINE="true", VP_REPLAY_DIR="/tmp/seed-replays")
+        env = dict(os.environ, CARGO_NET_OFFLINE="true", VP_REPLAY_DIR="/tmp/seed-replays", VP_EVIDENCE_DIR="/tmp/seed-evidence")
         if tests:
             t = sh(["cargo", "test", "--offline", "--manifest-path", "/repo/Cargo.toml", "--target-dir", os.path.join(ROOT, ".cache", "repo-target")], env=env)
             out = t.stdout.decode()
